@@ -154,7 +154,7 @@ func c05NewEnv() *c05Env {
 				c.SetParamNames(names...)
 			}
 			q := c.QueryParam("q")
-			if q == strconv.Itoa(st.id) {
+			if q == c.Request().URL.Query().Get("q") && c.QueryParam("leak") == "" {
 				o.staleQuery = "-"
 			} else {
 				o.staleQuery = "stale" + q
@@ -260,9 +260,21 @@ func (env *c05Env) register(r rRoute) {
 				// the handler replaces the request (as a rewriting middleware would): same identity for the
 				// observer, another query string, and the query cache is filled from it
 				r2 := c.Request().Clone(c.Request().Context())
-				r2.URL.RawQuery = "q=9999&leak=1"
-				c.SetRequest(r2)
-				c.QueryParam("q")
+				if op.A == 0 {
+					r2.URL.RawQuery = "q=9999&leak=1"
+					c.SetRequest(r2)
+					c.QueryParam("q")
+				} else {
+					// cache filled from the original query first, then the request is replaced by one whose
+					// query string equals that of other requests
+					c.QueryParam("q")
+					r2.URL.RawQuery = "q=same"
+					c.SetRequest(r2)
+				}
+			case "poisonQuery":
+				// the handler edits the parsed query it was given
+				c.QueryParams()["q"] = []string{"poisoned"}
+				c.QueryParams()["leak"] = []string{"1"}
 			case "setResponse":
 				// the handler swaps the response object for one of its own and dirties it
 				c.SetResponse(echo.NewResponse(httptest.NewRecorder(), env.e))
@@ -342,6 +354,11 @@ func (env *c05Env) serve3(id int, q rReq, prog []c05HOp, probe bool) (ro c05Obs,
 		}()
 		req := rNewRequest(q)
 		req.URL.RawQuery = "q=" + strconv.Itoa(id)
+		if id%3 == 0 {
+			// some requests carry byte-identical query strings (what a handler did to the parsed query of
+			// one of them must not show in another)
+			req.URL.RawQuery = "q=same"
+		}
 		req = req.WithContext(contextWith(req, st))
 		rec := httptest.NewRecorder()
 		env.e.ServeHTTP(rec, req)
@@ -378,7 +395,7 @@ func c05HOpWire(op c05HOp) string {
 		return "10"
 	case "setSharedValues":
 		return wJoin("2", wStrs(c05SharedPristine[:op.A]))
-	case "nested", "setRequest", "setResponse", "setHandler":
+	case "nested", "setRequest", "setResponse", "setHandler", "poisonQuery":
 		return "5" // nothing that a later request may see happens to the context
 	case "silent":
 		return "11" // like fail for the context: nothing more happens to it
@@ -560,7 +577,7 @@ func c05GenProg(r *rand.Rand) []c05HOp {
 			} else if r.Intn(2) == 0 {
 				p = append(p, c05HOp{Kind: "setSharedValues", A: 1 + r.Intn(6)})
 			} else if r.Intn(2) == 0 {
-				p = append(p, c05HOp{Kind: []string{"setRequest", "setResponse", "setHandler"}[r.Intn(3)], A: []int{0, 201, 500}[r.Intn(3)]})
+				p = append(p, c05HOp{Kind: []string{"setRequest", "setResponse", "setHandler", "poisonQuery"}[r.Intn(4)], A: []int{0, 201, 500}[r.Intn(3)]})
 			} else {
 				p = append(p, c05HOp{Kind: "silent"})
 			}
